@@ -263,8 +263,9 @@ class PersLandscapeExact(PersLandscape):
         # change A into a list
         A = list(A)
         # change inner nparrays into lists
+        # (as Python floats: b + d of int8 / uint8 rows would wrap around)
         for i in range(len(A)):
-            A[i] = list(A[i])
+            A[i] = [float(v) for v in A[i]]
         if A[-1][1] == np.inf:
             A.pop(-1)
 
